@@ -57,8 +57,10 @@ SPECS["C31"] = dict(
 SPECS["C32"] = dict(
     harness="C32_html.cc", units=SBUF + ["src/html/Quoting.cc"],
     entries=dict(
-        quick=[dict(name="c32_html_quote", bounds="two consecutive calls (static buffer reuse/growth): first one of {\"\", \"a\", \"<\", \"\\x0b\", \"\\x80\"}, then every NUL-free string of 0..1 bytes", reach=["done"])],
-        thorough=[dict(name="c32_html_quote", bounds="as quick, and the second string may continue with one of \"a\", \"<\", \"\\x80\" after its symbolic byte (2-byte strings)", reach=["done"])]),
+        quick=[dict(name="c32_html_quote", bounds="two consecutive calls (static buffer reuse/growth): first one of {\"\", \"a\", \"<\", \"\\x0b\", \"\\x80\"}, then every NUL-free string of 0..1 bytes", reach=["done"]),
+               dict(name="c32_html_context", bounds="one call on every string of 0..3 symbolic bytes over 17 class representatives {a < > \" ' & ; # 0x0b 0x7f 0x80 0xbf 0xc2 0xe2 0xf0 0xf4 0xff} (each class in every context of neighbours: metacharacters after UTF-8 lead/continuation bytes etc.)", reach=["done"], sample_every=97)],
+        thorough=[dict(name="c32_html_quote", bounds="as quick, and the second string may continue with one of \"a\", \"<\", \"\\x80\" after its symbolic byte (2-byte strings)", reach=["done"]),
+                  dict(name="c32_html_context", bounds="as quick with strings of 0..4 bytes", reach=["done"], sample_every=997)]),
     timeout=dict(quick=240, thorough=1500),
     stubs=["vsnprintf model for &#%d;"],
     outside="strings longer than the bound",
@@ -91,8 +93,10 @@ SPECS["C41"] = dict(
     harness="C41_domain.cc", units=TOK + ["src/anyp/Uri.cc", "lib/rfc1738.cc", "lib/util.cc", "lib/Splay.cc"],
     entries=dict(
         quick=[dict(name="c41_two_values", bounds="1..2 configured values of 1..2 bytes over {a,b,.} (optional leading dot), host of 1..3 bytes over {a,B,.}; all names well-formed (non-empty labels, single dots, no trailing dot, host without leading dot); both insertion orders are covered because the values are symbolic", reach=["match", "nomatch"], sample_every=13),
-               dict(name="c41_hyphen", bounds="1..2 configured values of 1..2 bytes over {a,-,.} (optional leading dot), host of 1..3 bytes over {a,-,.}; well-formed as above ('-' sorts below '.', every other host-name character above it: the splay ordering has to treat the label separator specially)", reach=["match", "nomatch"], sample_every=101)],
-        thorough=[dict(name="c41_hyphen", bounds="as quick with values of 1..3 bytes", reach=["match", "nomatch"], sample_every=101),
+               dict(name="c41_hyphen", bounds="1..2 configured values of 1..2 bytes over {a,-,.} (optional leading dot), host of 1..3 bytes over {a,-,.}; well-formed as above ('-' sorts below '.', every other host-name character above it: the splay ordering has to treat the label separator specially)", reach=["match", "nomatch"], sample_every=101),
+               dict(name="c41_history", bounds="as c41_hyphen, preceded by a lookup of another host of 1..2 bytes over {a,-,.} on the same ACL object (the splay tree is reorganised by every lookup); both answers checked", reach=["match", "nomatch"], sample_every=997)],
+        thorough=[dict(name="c41_history", bounds="as quick", reach=["match", "nomatch"], sample_every=997),
+                  dict(name="c41_hyphen", bounds="as quick with values of 1..3 bytes", reach=["match", "nomatch"], sample_every=101),
                   dict(name="c41_two_long_values", bounds="1..2 values of 1..3 bytes, host of 1..3 bytes; same alphabets and well-formedness", reach=["match", "nomatch"], sample_every=101)]),
     timeout=dict(quick=300, thorough=1800),
     stubs=["ConfigParser::strtokFile hands out the harness's values (ConfigParser.cc is not linked)", "libc strcasecmp/tolower/strlen models (C locale)", "debugs() disabled"],
